@@ -26,7 +26,7 @@ ASSUMPTIONS = [fastenv.ASSUMPTION, "file-system model = POSIX as validated by th
 OUTSIDE = ["pipelines other than P3 (depth 3, shared sub-node, run-time-argument keep) and P1", "failures inside dds's own analysis", "DBFS store"]
 FUNCTIONS_ENCODED = ["dds._api._eval", "dds._api._eval_new_ctx", "dds._api.keep", "dds._api.eval", "dds._api.load", "dds.store.MemoryStore.*", "dds.store.LocalFileStore.*"]
 BOUNDS = {"quick": {"failing invocation": "every one of the 5 invocations of the cold run", "exception classes": ["ValueError subclass", "KeyboardInterrupt", "BaseException subclass", "FileNotFoundError (an OSError, like the store's own I/O errors)"], "follow-ups": ["same pipeline repaired", "other pipeline"], "stores": ["memory", "local"]}}
-BOUNDS["thorough"] = BOUNDS["quick"]
+BOUNDS["thorough"] = dict(BOUNDS["quick"], payload="symbolic ASCII str <= 2 chars (quick: <= 1)")
 LAST_DETAIL = [""]
 INT_DIR, DATA_DIR = "/s/int", "/s/data"
 
@@ -156,10 +156,12 @@ def fail_impl(a):
 
 
 def make_fn(fn, sel, tag):
-    return h.gen_fn(tag, "fail", [("k", "int"), ("ek", "int"), ("follow", "int"), ("pay", "str")], ["0 <= k <= 4", "0 <= ek <= 3", "0 <= follow <= 1", "len(pay) <= 1 and pay.isascii()"], "harness.C10", "fail_impl")
+    return h.gen_fn(tag, "fail", [("k", "int"), ("ek", "int"), ("follow", "int"), ("pay", "str")], ["0 <= k <= 4", "0 <= ek <= 3", "0 <= follow <= 1", "len(pay) <= %d and pay.isascii()" % sel.get("plen", 1)], "harness.C10", "fail_impl")
 
 
 def queries(tier):
+    if tier == "thorough":
+        return [{"id": "fail.%s" % s, "fn": "fail", "sel": {"store": s, "plen": 2}, "timeout": 1800} for s in ("memory", "local")]
     return [{"id": "fail.%s" % s, "fn": "fail", "sel": {"store": s}, "timeout": 400} for s in ("memory", "local")]
 
 
